@@ -218,6 +218,8 @@ func main() {
 	retain := flag.Int64("retain", 0, "app asks to retain only this many blocks")
 	special := flag.String("special", "", "comma separated h:tx pairs submitted once the chain is at height >= h")
 	mempoolVersion := flag.String("mempool", "v0", "v0|v1")
+	absentVal := flag.Bool("absentval", false, "init: add a second genesis validator (power 1) that never shows up")
+	stateSyncOn := flag.Bool("statesync", false, "statesync.enable = true in the configuration (must be ignored by a node that has state)")
 	flag.Parse()
 	incarnation = *inc
 	if *plan != "" {
@@ -251,6 +253,12 @@ func main() {
 	c.Consensus.CreateEmptyBlocks = true
 	c.Consensus.DoubleSignCheckHeight = 0
 	c.FastSyncMode = false // no peers: with a second (absent) validator in the set the node would wait for block sync forever
+	if *stateSyncOn {
+		c.StateSync.Enable = true
+		c.StateSync.RPCServers = []string{"127.0.0.1:1", "127.0.0.1:2"}
+		c.StateSync.TrustHeight = 1
+		c.StateSync.TrustHash = strings.Repeat("AB", 32)
+	}
 	c.TxIndex.Indexer = "kv"
 	c.Instrumentation.Prometheus = false
 	keyFile, stateFile := c.PrivValidatorKeyFile(), c.PrivValidatorStateFile()
@@ -266,6 +274,10 @@ func main() {
 		must(nk.SaveAs(c.NodeKeyFile()))
 		gen := &types.GenesisDoc{ChainID: "crashbox-chain", GenesisTime: time.Now().Add(-time.Minute).UTC(), ConsensusParams: types.DefaultConsensusParams(),
 			Validators: []types.GenesisValidator{{Address: key.PubKey().Address(), PubKey: key.PubKey(), Power: 10, Name: "v0"}}}
+		if *absentVal {
+			k2 := ed25519.GenPrivKeyFromSecret([]byte("crashbox-absent-validator"))
+			gen.Validators = append(gen.Validators, types.GenesisValidator{Address: k2.PubKey().Address(), PubKey: k2.PubKey(), Power: 1, Name: "absent"})
+		}
 		must(gen.ValidateAndComplete())
 		must(gen.SaveAs(c.GenesisFile()))
 		return
